@@ -238,17 +238,20 @@ def random_script(rng, depth_max=3, big=False):
     return dict(tree=tree, pre=L.name_table(rng), scr_num=rng.choice([0, 0, 1, 7, 300]), kind="random-" + kind)
 
 
+EXCEPTION_FEATURES = ("F22", "F39", "F121")     # the decompiler raises: these get a script of their own (finding_scripts / exception_scripts)
+
+
 def limit_features(h, rng, g, tries=6):
-    """at most one known-defect feature per handler, so that a matcher never hides an unrelated failure in the same handler"""
+    """at most one known-defect feature per handler, so that a matcher never hides an unrelated failure in the same handler;
+    none of the features on which the decompiler raises (they would hide the other handlers of the script)"""
     sg = g.globals_hdr
-    f = [x for x in L.features(h, sg) if x.startswith("F")]
-    if len(f) <= 1:
+    ok = lambda hh: (lambda f: len(f) <= 1 and not any(x in EXCEPTION_FEATURES for x in f))([x for x in L.features(hh, sg) if x.startswith("F")])
+    if ok(h):
         return h
-    # drop statements until at most one feature is left
     head, body = h[:3], h[3:]
     keep = []
     for st in body:
-        if len([x for x in L.features(head + keep + [st], sg) if x.startswith("F")]) <= 1:
+        if ok(head + keep + [st]):
             keep.append(st)
     return head + (keep or [["call", "nothing"]])
 
